@@ -1,4 +1,5 @@
-//@PROBE file=src/trackers/sort.rs test=verif_probe_sort_history clauses=sort\.history
+//@PROBE file=src/trackers/sort.rs test=verif_probe_sort_history clauses=sort\.history units=sort_history
+//@BOUND history lengths 0..=4, 9 updates
 #[cfg(test)]
 mod verif_probe_sort_history {
     use super::*;
